@@ -5,7 +5,7 @@ from .shared import *  # noqa
 from vc.reflect import reflect_bool_method
 from vc.speclemmas import STREAM, PUBL
 from contracts.pattern_family import c12_contracts
-from contracts.lemlib import library, lemma_unit, dsl_only_unit, lib_bounded, PROP_FILE, TAUT_FILE
+from contracts.lemlib import library, lemma_unit, dsl_only_unit, lib_bounded, PROP_FILE, TAUT_FILE, MATCH_RULES, match_rule_unit
 from contracts.refine import dsl_unit, PFILE
 from .c04 import py_lib
 from .c08 import RULES
@@ -26,7 +26,12 @@ def build(repo, tier):
     infos, skipped = library(repo)
     us = [Unit(f'{pid}/py/library is assembled from DSL rules only', dsl_only_unit(repo))]
     for q in infos:
-        us.append(Unit(f'{pid}/py/{q}', lemma_unit(repo, cs, infos, q), info={'split_depth': 1}))
+        us.append(Unit(f'{pid}/py/{q}' + ('[sidecar schema]' if infos[q].sidecar else ''), lemma_unit(repo, cs, infos, q), info={'split_depth': 1}))
+    for name in MATCH_RULES:
+        if name.startswith('equiv_trans_match') and tier != 'thorough':
+            notes.append(f'Tautology.{name}: its matching contract (53 paths, ~200 s) is verified in the thorough tier only; quick tier: bounded stand-in')
+            continue
+        us.append(Unit(f'{pid}/py/Tautology.{name}[matching contract]', match_rule_unit(repo, cs, infos, name), info={'split_depth': 1}))
     for r in RULES:
         us.append(Unit(f'{pid}/py/ProofExp.{r} keeps thunks good', dsl_unit(repo, cs, r), info={'split_depth': 1}))
     bounded = {}
